@@ -26,7 +26,7 @@ def run(chk):
                        "distance in bohr^2 with one conversion constant, accumulation over atoms; thorough tier: the shipped table "
                        "(rows, uniform spacing, positivity).")
     chk.rule("R05.1", "table binding: row el-1 of the table is guarded by 1 <= el <= 103 and bound to the same atom as its position", 5)
-    chk.rule("R05.2", "the weight is a / (a + b + background) in the batch and the single-point path", 2)
+    chk.rule("R05.2", "the weight is a / (a + b + background) in the batch and the single-point path; the Python wrappers forward points and background unchanged", 6)
     chk.rule("R05.3", "interpolation is a convex combination of neighbouring table entries with end fills; batch and single-point kernels agree", 8)
     chk.rule("R05.4", "geometry enters only as the squared distance between point and atom, divided by bohr^2 (same constant at both sites)", 4)
     chk.rule("R05.5", "the density is accumulated additively over atoms; an atom's table row and position share the loop index", 4)
@@ -36,6 +36,7 @@ def run(chk):
         r05_1(chk, dp, dx)
     if chk.want("R05.2"):
         r05_2(chk, dx, dp)
+        r05_2_wrappers(chk, dp)
     if chk.want("R05.3"):
         r05_3(chk, dx)
     if chk.want("R05.4") or chk.want("R05.5"):
@@ -53,21 +54,43 @@ def r05_1(chk, dp, dx):
     ev = dp.ev(q)
     chk.saw(DP, q)
     st = [e for e in ev.events if e.kind == "store" and e.loops and "rho_data" in e.target.key()]
-    chk.need(len(st) == 1, f"{q}: table row store not found")
-    e = st[0]
-    loop = e.loops[-1]
-    t = e.target.as_atom()
-    row = t[2][0]
-    src = e.value.as_atom()
-    chk.need(src and src[0] == "sub" and src[1].key() == "_RHO", f"{q}: source is not a row of _RHO")
-    idx = src[2][0]
-    el = idx + 1
-    chk.ob("R05.1", DP, q, "row i of the per-atom table is the table row of element i (same enumerate index)",
-           loop.kind == "enumerate" and row.key() == loop.index.key() and el.key() == f"self.elements[{loop.index}]",
-           node=e.node, found=f"rho_data[{row}] = _RHO[{idx}]")
-    lo, hi = index_bounds(idx, e.guards, {})
-    chk.ob("R05.1", DP, q, "the element number is guarded to 1..103 before it indexes the table", lo >= 0 and hi <= 102, node=e.node,
-           fingerprint="guard", expected="0 <= el - 1 <= 102", found=f"[{lo}, {hi}]")
+    if not st:
+        # vectorised form: the per-atom rows must be _RHO[self.elements - 1] (row i <-> atom i); anything that reorders or
+        # groups the rows (unique / repeat / sort) detaches a row from the position it is paired with in the kernel
+        whole = [e for e in ev.events if e.kind == "store" and e.target.key() == "self.rho_data" and "_RHO" in e.value.key()]
+        chk.need(len(whole) == 1, f"{q}: table row store not found")
+        e = whole[0]
+        v = e.value
+        while True:
+            a = v.as_atom()
+            if a and a[0] == "call" and call_name(a) in ("numpy.ascontiguousarray", "numpy.asarray", "numpy.array", ".astype", ".copy", "numpy.copy"):
+                v = a[2][0] if not call_name(a).startswith(".") else a[1].as_atom()[1]
+                continue
+            break
+        a = v.as_atom()
+        okv = bool(a and a[0] == "sub" and a[1].key() == "_RHO" and a[2][0].key() == "-1 + self.elements" and
+                   all(x.key() == "(slice None None None)" for x in a[2][1:]))
+        chk.ob("R05.1", DP, q, "row i of the per-atom table is the table row of element i (same enumerate index)", okv, node=e.node,
+               expected="_RHO[self.elements - 1] (one row per atom, in atom order)", found=str(e.value)[:200])
+        gk = " ".join(c.key() for c, pol in e.guards if not pol)
+        chk.ob("R05.1", DP, q, "the element number is guarded to 1..103 before it indexes the table",
+               "(lt 103 self.elements)" in gk and "(lt self.elements 1)" in gk, node=e.node, fingerprint="guard", found=gk[:200])
+    else:
+        chk.need(len(st) == 1, f"{q}: table row store not found")
+        e = st[0]
+        loop = e.loops[-1]
+        t = e.target.as_atom()
+        row = t[2][0]
+        src = e.value.as_atom()
+        chk.need(src and src[0] == "sub" and src[1].key() == "_RHO", f"{q}: source is not a row of _RHO")
+        idx = src[2][0]
+        el = idx + 1
+        chk.ob("R05.1", DP, q, "row i of the per-atom table is the table row of element i (same enumerate index)",
+               loop.kind == "enumerate" and row.key() == loop.index.key() and el.key() == f"self.elements[{loop.index}]",
+               node=e.node, found=f"rho_data[{row}] = _RHO[{idx}]")
+        lo, hi = index_bounds(idx, e.guards, {})
+        chk.ob("R05.1", DP, q, "the element number is guarded to 1..103 before it indexes the table", lo >= 0 and hi <= 102, node=e.node,
+               fingerprint="guard", expected="0 <= el - 1 <= 102", found=f"[{lo}, {hi}]")
     calls = [c for c in ev.events if c.kind == "call" and "cPromol" in (call_name(c.value.as_atom() or ()) or "") or
              (c.kind == "call" and (call_name(c.value.as_atom() or ()) or "").endswith("PromoleculeDensity"))]
     chk.need(calls, f"{q}: construction of the compiled density not found")
@@ -261,3 +284,47 @@ def t05(chk, repo):
            found=f"min {float(rho.min())}")
     mono = bool(np.all(np.diff(rho[:, : rho.shape[1] // 1], axis=1)[:, -10:] <= 0))
     chk.ob("T05", NPZ, "rho", "the tail of every row decays (interpolation beyond the table falls back to a tiny value)", mono)
+
+
+def r05_2_wrappers(chk, dp):
+    """The Python wrappers hand positions and background to the compiled object unchanged."""
+    casts = lambda p: {p, f"{p}.astype(numpy.float32)", f"numpy.asarray({p}, dtype=numpy.float32)", f"numpy.array({p}, dtype=numpy.float32)",
+                       f"numpy.ascontiguousarray({p}, dtype=numpy.float32)"}
+    for cls, meth, inner in [("StockholderWeight", "weights", "self.s.weights"), ("PromoleculeDensity", "rho", "self.dens.rho")]:
+        q = f"{cls}.{meth}"
+        if q not in dp.funcs:
+            continue
+        ev = dp.ev(q)
+        chk.saw(DP, q)
+        pos = ev.param_names[1]
+        r = ev.returns[-1].value
+        forms = {f"{inner}({c})" for c in casts(pos)}
+        ok = r.key() in forms
+        if not ok and cls == "StockholderWeight":
+            for c in casts(pos):
+                try:
+                    a = P.atom(("call", P.atom(("attr", P.atom(("attr", P.name("self"), "dens_a")), "rho")), (P.name(pos),)))
+                    b = P.atom(("call", P.atom(("attr", P.atom(("attr", P.name("self"), "dens_b")), "rho")), (P.name(pos),)))
+                    bg = P.atom(("attr", P.name("self"), "background"))
+                    ok = ok or r == a / (a + b + bg)
+                except Exception:
+                    pass
+        chk.ob("R05.2", DP, q, f"the wrapper returns the compiled result for the given points unchanged ({inner}(points))", ok,
+               node=ev.returns[-1].node, fingerprint="forward", expected=f"{inner}({pos}.astype(float32))", found=str(r)[:200])
+    q = "StockholderWeight.from_arrays"
+    ev = dp.ev(q)
+    chk.saw(DP, q)
+    fn = dp.func(q)
+    call = [e for e in ev.events if e.kind == "call" and e.value.as_atom() and e.value.as_atom()[1].key() == ev.param_names[0]]
+    chk.need(len(call) == 1, f"{q}: constructor call not found")
+    a = call[0].value.as_atom()
+    kw = dict(a[3]) if len(a) > 3 else {}
+    n1, p1, n2, p2 = ev.param_names[1:5]
+    okpos = len(a[2]) == 2 and a[2][0].key() == f"PromoleculeDensity((tuple ({n1} {p1})))" and a[2][1].key() == f"PromoleculeDensity((tuple ({n2} {p2})))"
+    chk.ob("R05.2", DP, q, "interior = (n1, p1), exterior = (n2, p2), in that order", okpos, node=call[0].node, fingerprint="order",
+           found=[str(x) for x in a[2]])
+    vk = fn.args.kwarg.arg if fn.args.kwarg else None
+    okbg = (vk is not None and kw.get("**") is not None and kw["**"].key() == vk) or \
+        ("background" in kw and kw["background"].key() == "background" and "background" in ev.param_names)
+    chk.ob("R05.2", DP, q, "a background density given by the caller reaches the constructor", okbg, node=call[0].node, fingerprint="background",
+           expected="cls(..., **kwargs) or background=background", found=str({k: str(v) for k, v in kw.items()}))
